@@ -609,6 +609,40 @@ fn judge(_line: &str, a: &Answer, range: Option<&[u8]>, conditional: bool) -> Ca
             }
         }
     }
+    // RFC 7232 reference for the conditional headers (symbolic values, no model): 412 / 304 only
+    // when a sent precondition is false, and a false precondition is not ignored
+    if file_like && conditional {
+        let flags = kv(_line, "c").unwrap_or("-");
+        let (has_etag, has_lm) = (!flags.contains('E'), !flags.contains('M'));
+        let toks = |k: &str| kv(_line, k).map(|v| v.split(',').collect::<Vec<_>>());
+        let (im, inm) = (toks("im"), toks("inm"));
+        let off = |k: &str| kv(_line, k).and_then(|v| v.trim_start_matches('+').parse::<i64>().ok());
+        let unspecified = [&im, &inm].iter().any(|t| t.as_ref().map(|t| t.contains(&"nonstr")).unwrap_or(false));
+        if !unspecified {
+            let strong = |t: &Vec<&str>| t == &vec!["*"] || (has_etag && t.contains(&"E"));
+            let weak = |t: &Vec<&str>| t == &vec!["*"] || (has_etag && (t.contains(&"E") || t.contains(&"W")));
+            let im_fail = im.as_ref().map(|t| !strong(t)).unwrap_or(false);
+            let ius_fail = has_lm && off("ius").map(|d| d < 0).unwrap_or(false);
+            let cond304 = match &inm {
+                Some(t) => weak(t),
+                None => has_lm && off("ims").map(|d| d >= 0).unwrap_or(false),
+            };
+            if st == 412 && !(im_fail || ius_fail) {
+                fail("412-without-failed-precondition", format!("{}", _line));
+            }
+            if st == 304 && !cond304 {
+                fail("304-without-matching-validator", format!("{}", _line));
+            }
+            if im_fail && matches!(st, 200 | 206 | 304) {
+                fail("if-match-ignored", format!("status {} although If-Match does not match", st));
+            }
+            if cond304 && !(im_fail || ius_fail) && matches!(st, 200 | 206) {
+                fail("not-modified-ignored", format!("status {} although the validator matches", st));
+            }
+        }
+    } else if file_like && matches!(st, 304 | 412) {
+        fail("conditional-status-without-conditional-header", format!("status {}", st));
+    }
     let mut r = CaseResult::ok(output);
     r.nontrivial = is_listing || matches!(st, 200 | 206 | 304 | 307 | 412 | 416);
     r.tags.push(format!("S:{}", st));
